@@ -49,3 +49,13 @@ Print Assumptions C12_token_shape.
 Theorem C12_unbiased : forallb (fun c => Nat.eqb (count_for c) 4) charset = true /\ List.length charset = 52 /\ NoDup charset.
 Proof. exact unbiased. Qed.
 Print Assumptions C12_unbiased.
+
+(* ---- the comparison itself, from the statement-level translation of validateCSRFToken (Gen/Src_csrfcmp.v, re-translated
+   from middleware/csrf.go on every run): for every pair of byte strings the answer is whether they are equal - whole strings,
+   any length *)
+From Coq Require Import ZArith.
+From Echo Require Import Base.GoLoop Gen.Src_csrfcmp Mw.CsrfSrc.
+Theorem C12_source_validate_token : forall token client,
+  snd (GoLoop.run csym cpred src_validate_csrf_token_results src_validate_csrf_token (CsrfSrc.start token client)) = [b2v (str_eqb token client)].
+Proof. exact CsrfSrc.C12_source_validate_token. Qed.
+Print Assumptions C12_source_validate_token.
